@@ -251,6 +251,7 @@ def tstepAtI (x : RInst) (db : DB R0) (top : TyOp0) : DB R0 × KV × Except Stri
     | .out .errSetRoot => .error "err-root"
     | .errSize => .error "err-size"
     | .errRaw => .error "err-raw"
+    | .errIter => .error "err-iter"
     | .out (.out o) => .ok (tout kc pre top o))
 
 def showTy? : Except String (TyOut (List UInt8) (List UInt8) R0) → String
@@ -328,6 +329,7 @@ def stepLine (ss : Sess) (toks : List String) : Sess × String :=
           | ["root-w"] => (ss.putInst i { x with fault := .rootW }, "ok")
           | ["size-w"] => (ss.putInst i { x with fault := .sizeW }, "ok")
           | ["raw-w"] => (ss.putInst i { x with fault := .rawW }, "ok")
+          | ["raw-r"] => (ss.putInst i { x with fault := .rawR }, "ok")
           | _ => (ss, "bad-op")
         else
         if verb == "idfail" then
